@@ -32,6 +32,41 @@ def regressions(ctx):
         finally: r.close()
 
 
+def failed_call_family(ctx):
+    """directed family: a call that fails and is undone after pending (unflushed) collection changes, then commit.  An author with a
+    collection of three committed items (many-to-many, or one-to-many) and a profile whose Required reference points at the author
+    (no cascade): `author.delete()` clears the collection as a nested call and is then refused with ConstraintError; the undo has to
+    restore items, count, added AND removed.  Pending changes before the refused delete: remove / add / both / made from the other
+    side / none; after it: nothing or one more change; then commit - the database must hold what the session showed."""
+    E = {'pk': 'explicit', 'scalars': [{'name': 's0', 'req': False, 'unique': False}], 'ckey': False}
+    blocker = {'kind': 'o2o', 'sym': False, 'a': {'ent': 2, 'coll': False, 'req': True, 'opt_casc': None}, 'b': {'ent': 0, 'coll': False, 'req': False, 'opt_casc': None}}
+    m2m = {'kind': 'm2m', 'sym': False, 'a': {'ent': 0, 'coll': True, 'req': False, 'opt_casc': None}, 'b': {'ent': 1, 'coll': True, 'req': False, 'opt_casc': None}}
+    o2m = {'kind': 'm2o', 'sym': False, 'a': {'ent': 1, 'coll': False, 'req': False, 'opt_casc': None}, 'b': {'ent': 0, 'coll': True, 'req': False, 'opt_casc': None}}
+    n = [0]
+    def op(**kw): n[0] += 1; return dict(kw, rs=n[0], noreads=True)
+    def cr(oid, e, pk, refs=None): return op(k='create', oid=oid, e=e, pk=pk, scalars={}, refs=refs or {}, colls={})
+    for kind, rel, akey, ikey in (('m2m', m2m, [0, False], [0, True]), ('o2m', o2m, [0, True], [0, False])):
+        schema = {'ents': [dict(E), dict(E), dict(E)], 'rels': [rel, blocker]}
+        base = [cr(0, 0, 1), cr(1, 1, 1), cr(2, 1, 2), cr(3, 1, 3), cr(4, 1, 4), cr(5, 2, 1, {'r1a': 0}),
+                op(k='coll_set', o=0, key=akey, items=[1, 2, 3], via='list'), op(k='commit')]
+        rm = op(k='coll_remove', o=0, key=akey, items=[1], via='single'); ad = op(k='coll_add', o=0, key=akey, items=[4], via='single')
+        other = op(k='coll_remove', o=2, key=ikey, items=[0], via='single') if kind == 'm2m' else op(k='set_ref', o=2, key=ikey, v=None)
+        dele = op(k='delete', o=0)
+        for name, pend, after in (('remove', [rm], []), ('add', [ad], []), ('remove+add', [rm, ad], []), ('from-the-other-side', [other], []),
+                                  ('none', [], []), ('remove, then add after the refusal', [rm], [ad]), ('fresh-session remove', [op(k='end_ok'), rm], [])):
+            for end in ('commit', 'end_ok'):
+                hist = {'schema': schema, 'ops': base + pend + [dele] + after + [op(k=end)]}
+                r = S.Run(hist['schema'], ops=hist['ops'], ctx=None, reads=False)
+                try:
+                    r.run()
+                    ctx.case({'directed': 'refused-delete-after-pending-collection-change', 'kind': kind, 'pending': name, 'end': end}, kind='directed')
+                    refused = any(c.startswith('op:delete:') and not c.endswith(':ok') for c in r.counts)
+                    ctx.count('directed:refused-delete:%s:%s' % (kind, 'refused' if refused else 'not-refused'))
+                    for f in r.findings:
+                        if f['prop'] == 'C09': ctx.violation(f['what'], hist, observed=f['observed'], expected=f['expected'], key=f['key'])
+                finally: r.close()
+
+
 def witness_full_false(ctx):
     """Props/C09.lean `C09_full_false` on the real code: the guard `ValidFrom` (the program does not construct an object under a
     primary key it still holds) is needed.  Not a violation: the program is ill-formed; recorded so that a change is noticed."""
@@ -67,6 +102,7 @@ def witness_full_false(ctx):
 
 def run(ctx):
     regressions(ctx)
+    failed_call_family(ctx)
     witness_full_false(ctx)
     S.explore(ctx, 'C09', ctx.scale(260, 1800), ctx.scale(22, 30))
 
